@@ -447,6 +447,12 @@ def concretize(reg, ns, d, kind, c, salt):
     cap = d["n"] if fixed else d["cap"]
     dt = storage_dtype(e)
     if c == "wtype":
+        if is_bytelike(d) and cap >= 2 and salt % 3:
+            # buffers whose len() is NOT their byte count (16-bit items, a 2-D view): len() fits the capacity, the bytes do not
+            import array
+
+            raw = bytes((7 * i + salt) % 251 for i in range(2 * cap))
+            return memoryview(array.array("H", raw)) if salt % 3 == 1 else memoryview(raw).cast("B", (2, cap))
         return Foreign()
     if c == "empty":
         return [[], (), np.array([], dt)][salt % 3]
